@@ -32,13 +32,27 @@ import (
 	"runtime"
 	"strings"
 	"sync"
+	"sync/atomic"
 	"testing"
 	"time"
 
 	"pgregory.net/rapid"
 )
 
-const vpC13Deadline = 20 * time.Second
+// vpC13Deadline bounds the "eventually" clauses. Nominal latencies are microseconds to
+// MaxIdleWorkerDuration (<=10 ms); the bound is >=1000x that. Once a case has failed with the full
+// bound, rapid's shrinking re-runs use a short bound so that minimisation stays affordable (the
+// violation itself was established with the full bound).
+const vpC13DeadlineFull = 10 * time.Second
+
+var vpC13Failed atomic.Bool
+
+func vpC13DL() time.Duration {
+	if vpC13Failed.Load() {
+		return 500 * time.Millisecond
+	}
+	return vpC13DeadlineFull
+}
 
 const (
 	vpC13OutNil = iota
@@ -366,6 +380,7 @@ func (r *vpC13Run) fail(format string, a ...any) {
 	evs := strings.Join(r.h.events, " ")
 	viol := strings.Join(r.h.viol, "; ")
 	r.h.mu.Unlock()
+	vpC13Failed.Store(true)
 	r.t.Fatalf("C13 violated: %s\n  recorded violations: %s\n  max=%d idle=%v script=%s\n  history: %s",
 		msg, viol, r.max, r.idle, strings.Join(r.script, " "), evs)
 }
@@ -413,8 +428,8 @@ func (r *vpC13Run) awaitEntered(cs []*vpC13Conn) {
 			r.sawReject = true
 			continue
 		}
-		if !vpC13Wait(c.entered, vpC13Deadline) {
-			r.fail("conn %d accepted by Serve but not handed to a worker within %v (busy=%d)", c.id, vpC13Deadline, len(r.busy))
+		if !vpC13Wait(c.entered, vpC13DL()) {
+			r.fail("conn %d accepted by Serve but not handed to a worker within %v (busy=%d)", c.id, vpC13DL(), len(r.busy))
 		}
 		r.busy = append(r.busy, c)
 	}
@@ -425,8 +440,8 @@ func (r *vpC13Run) awaitEntered(cs []*vpC13Conn) {
 
 func (r *vpC13Run) awaitPending() {
 	for _, c := range r.pending {
-		if !vpC13Wait(c.done, vpC13Deadline) {
-			r.fail("conn %d released (%s) but not closed/reported within %v", c.id, vpC13OutNames[c.outcome], vpC13Deadline)
+		if !vpC13Wait(c.done, vpC13DL()) {
+			r.fail("conn %d released (%s) but not closed/reported within %v", c.id, vpC13OutNames[c.outcome], vpC13DL())
 		}
 	}
 	r.pending = r.pending[:0]
@@ -513,14 +528,14 @@ func (r *vpC13Run) stepPause() {
 	before, _ := r.workersCount()
 	want := len(r.busy)
 	r.script = append(r.script, fmt.Sprintf("pause(busy=%d,workers=%d)", want, before))
-	ok := vpC13Poll(vpC13Deadline, func() bool {
+	ok := vpC13Poll(vpC13DL(), func() bool {
 		wc, rd := r.workersCount()
 		return wc == want && rd == 0
 	})
 	if !ok {
 		wc, rd := r.workersCount()
 		r.fail("idle workers not retired: after a traffic-free pause of %v (MaxIdleWorkerDuration=%v, stopped=%v) workersCount=%d len(ready)=%d, but only %d workers are busy",
-			vpC13Deadline, r.idle, r.stopped, wc, rd, want)
+			vpC13DL(), r.idle, r.stopped, wc, rd, want)
 	}
 	if before > want && !r.stopped {
 		r.cleanAny = true
@@ -539,7 +554,7 @@ func (r *vpC13Run) stepProbe() {
 		return
 	}
 	r.script = append(r.script, "probe")
-	end := time.Now().Add(vpC13Deadline)
+	end := time.Now().Add(vpC13DL())
 	tries := 0
 	for {
 		c := r.newConn()
@@ -555,7 +570,7 @@ func (r *vpC13Run) stepProbe() {
 		if time.Now().After(end) {
 			wc, rd := r.workersCount()
 			r.fail("capacity lost: %d of %d workers busy, yet Serve kept returning false for %v (%d tries; workersCount=%d ready=%d)",
-				len(r.busy), r.max, vpC13Deadline, tries, wc, rd)
+				len(r.busy), r.max, vpC13DL(), tries, wc, rd)
 		}
 		time.Sleep(200 * time.Microsecond)
 	}
@@ -699,7 +714,7 @@ func vpC13Case(t *rapid.T) {
 	}
 	r.awaitPending()
 	r.check("after final release")
-	if !vpC13Poll(vpC13Deadline, func() bool { wc, rd := r.workersCount(); return wc == 0 && rd == 0 }) {
+	if !vpC13Poll(vpC13DL(), func() bool { wc, rd := r.workersCount(); return wc == 0 && rd == 0 }) {
 		wc, rd := r.workersCount()
 		r.fail("after Stop and release of every connection: workersCount=%d len(ready)=%d, want 0/0", wc, rd)
 	}
@@ -777,6 +792,6 @@ func vpC13Case(t *rapid.T) {
 
 func TestVP_C13_WorkerPool(t *testing.T) {
 	vpNote("C13: request order of Serve/release/pause/Stop is a pure function of the seed; goroutine preemption is the Go scheduler's (interleavings sampled, not enumerated)")
-	vpNote("C13: 'eventually' clauses (idle retirement, worker exit after Stop, admission with free capacity) are polled with a %v deadline (>=1000x MaxIdleWorkerDuration)", vpC13Deadline)
+	vpNote("C13: 'eventually' clauses (idle retirement, worker exit after Stop, admission with free capacity) are polled with a %v deadline (>=1000x MaxIdleWorkerDuration)", vpC13DL())
 	rapid.Check(t, vpC13Case)
 }
